@@ -310,3 +310,116 @@ func PipelineArrival() string {
 	}
 	return s
 }
+
+// ---- constructs a refactor of gofasta might plausibly use ----
+
+type box struct {
+	mu  sync.RWMutex
+	val map[string]int
+}
+
+func (b *box) put(k string, v int, done chan<- struct{}) {
+	b.mu.Lock()
+	b.val[k] = v
+	b.mu.Unlock()
+	done <- struct{}{}
+}
+
+func (b *box) get(k string) int {
+	b.mu.RLock()
+	defer b.mu.RUnlock()
+	return b.val[k]
+}
+
+// Idioms: method values in go statements, RWMutex, deferred close/Done, if/switch with receive
+// initialisers, receive inside expressions, non-blocking send, select with a send case, Once.
+func Idioms() string {
+	b := &box{val: map[string]int{}}
+	done := make(chan struct{})
+	go b.put("x", 2, done)
+	go b.put("y", 3, done)
+	<-done
+	<-done
+	a := make(chan int, 1)
+	c := make(chan int, 1)
+	a <- b.get("x")
+	c <- b.get("y")
+	sum := <-a + <-c
+	res := make(chan string, 4)
+	var wg sync.WaitGroup
+	var once sync.Once
+	for i := 0; i < 2; i++ {
+		i := i
+		wg.Add(1)
+		go func() {
+			defer wg.Done()
+			once.Do(func() { res <- "once" })
+			_ = i
+		}()
+	}
+	wg.Wait()
+	full := make(chan int, 1)
+	full <- 1
+	nb := ""
+	select {
+	case full <- 2:
+		nb = "sent"
+	default:
+		nb = "full"
+	}
+	out := make(chan int)
+	go func() {
+		defer close(out)
+		for i := 0; i < 2; i++ {
+			select {
+			case out <- i:
+			}
+		}
+	}()
+	got := ""
+	if v, ok := <-out; ok {
+		got += fmt.Sprint(v)
+	}
+	switch v := <-out; v {
+	case 1:
+		got += "one"
+	default:
+		got += "other"
+	}
+	var last int
+	for last = range out {
+	}
+	return fmt.Sprint(sum, <-res, nb, got, last, len(res))
+}
+
+// ErrFirst: the gofasta pattern - stages report on one error channel, main selects on it in every
+// stage-completion loop.
+func ErrFirst(fail bool) string {
+	cErr := make(chan error)
+	cDone := make(chan bool)
+	work := make(chan int, 2)
+	go func() {
+		for i := 0; i < 3; i++ {
+			if fail && i == 1 {
+				cErr <- fmt.Errorf("bad record %d", i)
+				return
+			}
+			work <- i
+		}
+		cDone <- true
+	}()
+	go func() {
+		for range work {
+		}
+	}()
+	for n := 1; n > 0; {
+		select {
+		case err := <-cErr:
+			return "error: " + err.Error()
+		case <-cDone:
+			close(work)
+			n--
+		}
+	}
+	return "ok"
+}
